@@ -108,9 +108,13 @@ def load_from_directory(layer: "SemanticLayer", directory: str | Path) -> None:
             # Check for Sidemantic native format (explicit models: key)
             elif "models:" in content:
                 adapter = SidemanticAdapter()
+            elif "table_name:" in content and "columns:" in content and "metrics:" in content:
+                # Superset datasets also contain "metrics:" and "type: ", so they must be
+                # recognised before the generic MetricFlow metrics-file check below
+                adapter = SupersetAdapter()
             elif "metrics:" in content and "type: " in content:
                 adapter = MetricFlowAdapter()
-            elif "base_sql_table:" in content and "measures:" in content:
+            elif ("base_sql_table:" in content or "base_sql_query:" in content) and "measures:" in content:
                 adapter = HexAdapter()
             elif "table:" in content and "db_table:" in content and "columns:" in content:
                 adapter = ThoughtSpotAdapter()
@@ -124,8 +128,6 @@ def load_from_directory(layer: "SemanticLayer", directory: str | Path) -> None:
                 adapter = BSLAdapter()
             elif "type: metrics_view" in content:
                 adapter = RillAdapter()
-            elif "table_name:" in content and "columns:" in content and "metrics:" in content:
-                adapter = SupersetAdapter()
             elif (
                 "measures:" in content
                 and "dimensions:" in content
